@@ -248,7 +248,10 @@ def install_recorder(sim):
 
     def calculate(variable_name, period):
         if not isinstance(period, periods.Period):
-            return real(variable_name, period)
+            try:
+                period = periods.period(period)     # the public API accepts the text form too
+            except Exception:  # noqa: BLE001
+                return real(variable_name, period)
         node = {"name": variable_name, "period": rules.period_json(period), "value": None, "children": [], "reads": []}
         (rec.stack[-1]["children"] if rec.stack else rec.roots).append(node)
         rec.stack.append(node)
